@@ -90,6 +90,10 @@ package standard
 //@   at call ScheduleJob#1: assert arg2 == sprintf("Attestations for slot %d", duty.slot)
 //@   at call ScheduleJob#1: assert ns(arg3) == startOfSlotNs(duty.slot) + s.maxAttestationDelay
 //@   ensures calls(ScheduleJob) == 1
+//@   // C20: a slot stays pending from the setting up of its job until that job has finished or been withdrawn: the
+//@   // goroutine that hands the job to the scheduler never withdraws a mark (a refusal means that an earlier job of
+//@   // the slot is still waiting, and the mark is that job's)
+//@   at call delete: assert false
 //@
 //@ func (*Service).scheduleAttestations$1$1
 //@   requires duty != nil
@@ -190,10 +194,18 @@ package standard
 //@   ensures calls(ScheduleJob) == 1
 //@
 //@ // ---- callers of the sync committee scheduling (C17 sweep) ----
+//@ spec func nextIdxErr() error
 //@ func (*Service).handleAltairForkEpoch$1
 //@   requires s.handlingAltair
 //@ func (*Service).handleAltairForkEpoch$2
 //@   requires s.handlingAltair
+//@   // C15: at the Altair fork the period that FOLLOWS the fork's period is prepared as well when its first epoch - the
+//@   // next multiple of the period length above the fork epoch - is within the preparation window
+//@   assumes call syncCommitteeIndicesForEpoch#1 (v, err): err == nextIdxErr()
+//@   at call syncCommitteeIndicesForEpoch#1: assert arg2 == u64(u64(s.altairForkEpoch / s.epochsPerSyncCommitteePeriod + 1) * s.epochsPerSyncCommitteePeriod)
+//@   at call go#1: assert arg2 == u64(u64(s.altairForkEpoch / s.epochsPerSyncCommitteePeriod + 1) * s.epochsPerSyncCommitteePeriod)
+//@   // (whether the window test itself is right is not stated: the window length is a package variable, which the
+//@   // contract language cannot name)
 //@ func (*Service).epochTicker
 //@   requires data != nil && nolocks()
 //@ func (*Service).startEpochTicker$2
